@@ -597,8 +597,16 @@ def ijepa(prog: Program, rep: Report):
                 f"never updated with the lengths of the sampled masks (no '{cv} = min({cv}, len(mask))'): masks shorter than it "
                 f"keep their own length and cannot be stacked to one common size", clause="C17.4")
     for k, (n1, var, mname) in enumerate(sorted(minima)):
+        def _upper_is(u, var_):
+            # mask[:K]  or  mask[:min(len(mask), K)] (slicing clamps to the length anyway)
+            if _n(u) == var_:
+                return True
+            return isinstance(u, ast.Call) and isinstance(u.func, ast.Name) and u.func.id == "min" and not u.keywords and \
+                any(_n(a_) == var_ for a_ in u.args) and all(
+                    _n(a_) == var_ or (isinstance(a_, ast.Call) and isinstance(a_.func, ast.Name) and a_.func.id == "len")
+                    for a_ in u.args)
         cuts = [n2 for n2 in cfg.nodes for y in cfg.walk_node(n2) if isinstance(y, ast.Subscript) and isinstance(y.slice, ast.Slice)
-                and y.slice.lower is None and _n(y.slice.upper) == var]
+                and y.slice.lower is None and y.slice.upper is not None and _upper_is(y.slice.upper, var)]
         apps = [m for m, cc in fa.calls_named("append") if cc.args and _n(cc.args[0]) == mname and fa.conds_at(m) == fa.conds_at(n1)
                 and (cfg.reachable(m, n1) or cfg.reachable(n1, m))]
         upd_ok = mname is not None and bool(apps)
